@@ -15,7 +15,7 @@ LEGS = [  # (leg, package, overlay files, test function)
 HARNESSES = [(pkg, files, "c06" + leg) for leg, pkg, files, _ in LEGS]
 
 REQUIRED = ["parse_sound", "last_member_decides", "lc_exact", "lc_exact_fails_without_guard", "admitted_sound", "admitted_prevs_clock",
-            "admitted_signature", "add_idempotent", "rejected_no_trace", "cancelled_add_no_trace", "fact_rollback_reloads", "dag_inv", "concurrent_adds_serialise",
+            "admitted_signature", "add_idempotent", "rejected_no_trace", "cancelled_add_no_trace", "fact_rollback_reloads", "other_doors_keep_invariant", "fact_state_wiring", "fact_list_handler", "fact_payload_handler", "fact_create_transaction", "dag_inv", "concurrent_adds_serialise",
             "concurrent_adds_keep_invariant", "created_tx_admissible", "notified_exactly_once",
             "fact_allowed_algos", "fact_allowed_versions", "fact_header_names", "fact_parse_steps",
             "fact_signature_count_checked", "fact_lc_strict", "fact_jwk_public_only", "embedded_key_is_public", "fact_strict_framing", "accepted_bytes_are_a_jws_serialization", "fact_prev_verifier", "fact_verifier_order",
@@ -413,7 +413,17 @@ def run(ctx):
                         want.append(prev["m_head"])
                     if newrefs != [r8] or any(w not in pv for w in want) or len(set(pv)) != len(pv):
                         violate("C06:created-tx-prevs", f"CreateTransaction: prevs {pv} do not hold the head and the additional prevs {want} exactly once, or the transaction was not stored", i)
-                elif newrefs or (prev is not None and any(o.get(k) != prev.get(k) for k in ("LC", "m_n", "m_xor"))):
+                else:
+                    # was the request valid? every additional prev stored together with its payload (and a head to build on)
+                    prev_refs = [x for _, x in lcs_prev]
+                    pls_prev = [x for x in (prev or {}).get("PL", "").split(",")] if (prev or {}).get("PL", "") else []
+                    def has_payload(r8):
+                        hx = declared.get(r8)
+                        return hx in probe_phs and probe_phs.index(hx) < len(pls_prev) and pls_prev[probe_phs.index(hx)] != "-"
+                    addl = [a[:8].lower() for a in op.get("additional") or []]
+                    if all(a in prev_refs and has_payload(a) for a in addl) and (prev_refs or not addl):
+                        violate("C06:create-refused-valid-request", f"CreateTransaction returned {res} although head and additional prevs {addl} are stored with their payloads", i)
+                if not res.startswith("ok") and (newrefs or (prev is not None and any(o.get(k) != prev.get(k) for k in ("LC", "m_n", "m_xor")))):
                     violate("C06:rejected-left-trace", f"CreateTransaction returned {res} but the observable state changed", i)
         if kind == "payload":
             n_late += 1
@@ -530,7 +540,7 @@ def run(ctx):
     ctx.oblige("oracle:admission-sound/no-trace/idempotent(impl)", not any(s.split(":")[1] in (
         "rejected-left-trace", "rejected-left-trace-in-digests", "payload-event-with-wrong-bytes", "readd-changed-state", "admission-not-exactly-one", "admitted-with-missing-prev", "admitted-with-wrong-clock",
         "second-root", "admitted-bad-signature", "admitted-unresolvable-kid", "stored-payload-does-not-hash-to-its-key",
-        "public-tx-admitted-without-payload", "list-with-unparseable-tx-partly-admitted", "created-tx-prevs", "late-payload-with-wrong-bytes-accepted", "admitted-wrong-payload", "notification-not-exactly-once", "ref-stored-twice",
+        "public-tx-admitted-without-payload", "list-with-unparseable-tx-partly-admitted", "created-tx-prevs", "create-refused-valid-request", "late-payload-with-wrong-bytes-accepted", "admitted-wrong-payload", "notification-not-exactly-once", "ref-stored-twice",
         "count-differs-from-stored", "two-roots", "digest-differs-from-stored", "inconsistent-read", "reopen-differs") or
         s.startswith("C06:admitted-malformed") for s in seen_sig),
         f"{n_add} adds: {n_admit} admitted, {n_reject} rejected ({n_cancel} with the context cancelled inside the write tx), {n_readd} re-adds")
